@@ -154,17 +154,15 @@ where E: Send + 'static
         if let Ok(priority_event) = self.priority_receiver.try_recv() {
             return Some(priority_event);
         }
-        else if let Some(next_instant) = self.timers.iter().next() {
+
+        if let Some(next_instant) = self.timers.iter().next() {
             if *next_instant.0 <= Instant::now() {
                 let instant = *next_instant.0;
                 return self.timers.remove(&instant);
             }
         }
-        else if let Ok(event) = self.receiver.try_recv() {
-            return Some(event);
-        }
 
-        None
+        self.receiver.try_recv().ok()
     }
 }
 
